@@ -174,6 +174,16 @@ def check(pid, tier, seed, replay=None):
                 continue
             v.violation("program %s: emission %s is not the ghost of its slot" % (script["id"], json.dumps(e)[:300]),
                         {"property": pid, "script": script, "recording": [json.loads(x) for x in recs[ri][1]], "bad_line": k + 1})
+        # hlog's per-request loggers are sibling loggers derived from one base logger with With()...Logger() + UpdateContext
+        # (hlog/hlog.go is one of the places this property is anchored in): the isolation schedules of the hlog family
+        hl_n = 0
+        if not replay:
+            from checks import hlogc
+            hrecs, hbads, hstats = hlogc.iso_part(sc, tier, seed, nfree=600 if thorough else 120)
+            hl_n = len(hrecs)
+            for script, rr, k, e in hbads:
+                v.violation("hlog schedule %s: a request's event does not carry exactly its own derivation: %s" % (script["id"], json.dumps(e)[:300]),
+                            {"property": pid, "kind": "hlog", "script": script, "recording": [json.loads(x) for x in rr], "bad_line": k + 1})
         # auxiliary: different nodes of one tree used by real goroutines under the race detector
         rp2 = go_build("./players/tree_race", sc.path("tree-race-bin"), race=True)
         import os
@@ -189,7 +199,7 @@ def check(pid, tier, seed, replay=None):
             stats["race_detector_rounds"] = rr["rounds"]
         samples = [{"script": json.loads(s), "recording": [json.loads(x) for x in rr][:12]} for s, rr in recs[:2]]
         cov = {"states": max(1, stats.get("distinct", 1)), "transitions": max(1, stats.get("generated", 1)), "traces_validated_against_impl": len(recs),
-               "samples": samples, "model": stats, "programs": len(scripts), "emissions_validated": sum(1 for _, rr in recs for x in rr if '"a":"Emit"' in x),
+               "samples": samples, "model": stats, "programs": len(scripts), "hlog_request_schedules": hl_n, "emissions_validated": sum(1 for _, rr in recs for x in rr if '"a":"Emit"' in x),
                "known_findings_matched": {k: n for k, (n, _) in v.known.items()}, "exhaustive": False,
                "checker_cmd": "tlc LoggerTree.tla (Independent, VIEW View); tlc LoggerTreeTrace.tla"}
         write_evidence(pid, tier, seed, "model_checking", cov, time.time() - t0, len(v.violations),
